@@ -40,6 +40,7 @@ func (x *Exec) runOnce(dec []Dec, concrete map[string]string) (out abortSig, pr 
 	x.syncMaps = nil // contents of sync.Map objects are per path (object ids restart with every path)
 	x.syncPools = nil
 	x.timerResets = nil
+	x.decoders, x.jsonExact = nil, false
 	x.rvalues = map[*Agg]Value{}
 	x.randN = 0
 	x.inJSONMethod = map[*ssa.Function]bool{}
